@@ -92,6 +92,16 @@ def check_gen_chain(case, rec):
             raise Mismatch("C11:mode-roundtrip", f"{m!r}", mode_fields(dm), mode_fields(dm2))
         if dd["fs"] != sorted(ds):
             raise Mismatch("C11:mode-dict-fs", "fs must list every daughter once per multiplicity in canonical (sorted) order", sorted(ds), dd["fs"])
+        # the same final state given in the other accepted forms
+        from decaylanguage import DaughtersDict
+        forms = {"tuple": tuple(reversed(ds)), "mapping": dict(Counter(ds)), "DaughtersDict": DaughtersDict(list(ds))}
+        if ds and all(" " not in x and "\t" not in x and x.strip() == x and x for x in ds):
+            forms["string"] = "  ".join(ds)
+        for how, val in forms.items():
+            with impl(ID, f"DecayMode({how})"):
+                other = DecayMode(b, val, **md)
+            if mode_fields(other) != mode_fields(dm):
+                raise Mismatch("C11:mode-constructor", f"{m!r}: daughters given as {how}", mode_fields(dm), mode_fields(other))
     decaying = {d[0] for d in c["decays"]}
     occ = Counter(x for _, _, ds, _ in c["decays"] for x in ds if x in decaying)
     classes = []
